@@ -1,6 +1,7 @@
 package eng
 
 import (
+	"go/constant"
 	"go/token"
 	"go/types"
 
@@ -230,6 +231,19 @@ func RelEdges(fn *ssa.Function, op token.Token, x, y Pat) []Edge {
 			}
 			match := (rel == op && x(bo.X) && y(bo.Y)) || (mirror[rel] == op && x(bo.Y) && y(bo.X))
 			if !match {
+				// integer normalisation: `v < k` ≡ `v <= k-1`, `v <= k` ≡ `v < k+1`, `v > k` ≡ `v >= k+1`, `v >= k` ≡ `v > k-1`
+				for _, alt := range intEquivalents(rel, bo.X, bo.Y) {
+					if alt.op == op && x(alt.x) && y(alt.y) {
+						match = true
+					}
+				}
+				for _, alt := range intEquivalents(mirror[rel], bo.Y, bo.X) {
+					if alt.op == op && x(alt.x) && y(alt.y) {
+						match = true
+					}
+				}
+			}
+			if !match {
 				continue
 			}
 			if truth == pol {
@@ -276,4 +290,34 @@ func endsInPanic(b *ssa.BasicBlock) bool {
 	}
 	_, ok := b.Instrs[len(b.Instrs)-1].(*ssa.Panic)
 	return ok
+}
+
+type relAlt struct {
+	op   token.Token
+	x, y ssa.Value
+}
+
+// intEquivalents rewrites `x rel k` (k an integer constant on the right) into
+// the equivalent strict/non-strict form with k±1.
+func intEquivalents(rel token.Token, x, y ssa.Value) []relAlt {
+	k, ok := y.(*ssa.Const)
+	if !ok || k.Value == nil || k.Value.Kind() != constant.Int {
+		return nil
+	}
+	n, exact := constant.Int64Val(k.Value)
+	if !exact {
+		return nil
+	}
+	mk := func(v int64) ssa.Value { return ssa.NewConst(constant.MakeInt64(v), k.Type()) }
+	switch rel {
+	case token.LSS:
+		return []relAlt{{token.LEQ, x, mk(n - 1)}}
+	case token.LEQ:
+		return []relAlt{{token.LSS, x, mk(n + 1)}}
+	case token.GTR:
+		return []relAlt{{token.GEQ, x, mk(n + 1)}}
+	case token.GEQ:
+		return []relAlt{{token.GTR, x, mk(n - 1)}}
+	}
+	return nil
 }
